@@ -12,11 +12,15 @@ What `Props/C16.lean` proves against it:
   * set-level: every error an interpreter can return is a variant of its generator's `*Emits` and vice versa, the
     attribute matrix, `Field.required` = the translated `is_required` function (`errors_in_source`,
     `source_emissions_modelled`, `source_attr*`, `source_required_rules`);
-  * a PIN: `source_shape_pinned` states the `*Guarded` / `*Guards` lists literally (order and multiplicity included),
-    so adding, dropping, renaming, REORDERING an emission or changing / inverting / removing a flag condition breaks that
-    obligation and forces the interpreter to be re-read against the source;
-  * per flag-guarded emission, the model-side counterpart (`guards_govern_model`): the interpreter returns that error
-    only under the same flag.
+  * PINS: `source_shape_pinned` states the `*Guarded` / `*Guards` lists literally (order and multiplicity included):
+    adding, dropping, renaming, REORDERING an emission, or changing a flag condition WRITTEN AS `if` / `.then(` FOLLOWED
+    BY `{`, breaks it.  `source_lines_pinned` (Props/C16Pin.lean) states the `*Lines` lists literally: every source line
+    that mentions an attribute flag (also let-bound locals, match-arm guards, closure filters, quote! interpolations),
+    a counter of the generated code or the derivation of a column name; any edit of such a line breaks it.  Both pins
+    are blunt: they force the interpreter to be re-read against the source, they prove nothing about behaviour;
+  * `source_names_unraw` / `source_default_flavor`: all four derives `unraw()` the identifier, `#[default]` is by name;
+  * for 6 flag-guarded emissions and the `default_when_null` conditions, the model-side counterpart
+    (`guards_govern_model`): string membership in the pinned list plus a theorem for all inputs.
 What it does NOT see: conditions that mention no attribute flag, the data flow between the emissions, anything inside
 `<T as SerializeValue>` etc.  That the interpreter computes what the generated code computes is established by the
 differential run, not by this file.  Fails closed (ExtractError) when a pattern is not found.
@@ -37,6 +41,7 @@ SR = "scylla-macros/src/serialize/row.rs"
 DV = "scylla-macros/src/deserialize/value.rs"
 DR = "scylla-macros/src/deserialize/row.rs"
 MI = "scylla-cql-core/src/_macro_internal.rs"
+LIB = "scylla-macros/src/lib.rs"
 
 KIND_ENUMS = [
     "UdtTypeCheckErrorKind", "UdtSerializationErrorKind",
@@ -187,6 +192,54 @@ def required_expr(rel):
     return " ".join(out).replace("! ", "!")
 
 
+# every source line that mentions one of these words is pinned literally (`*Lines`): attribute flags wherever they
+# flow (let-bound locals, match-arm guards, closure filters, quote! interpolations) and everything that decides a
+# column name
+WATCH_WORDS = FLAG_WORDS + [
+    "allow_missing", "cql_name_literal", "column_name", "field_name", "udt_field_name", "unraw", "rename", "flavor",
+    "Flavor", "remaining_count", "remaining_required", "skipped_fields", "saved_cql_field",
+]
+
+
+def watched_lines(rel):
+    src = strip_comments(read(rel))
+    out = []
+    for line in src.split("\n"):
+        t = _norm(line)
+        if t and any(w in t for w in WATCH_WORDS):
+            out.append(t.replace("\\", "\\\\").replace('"', '\\"'))
+    if not out:
+        raise ExtractError("%s: no watched line found" % rel)
+    return out
+
+
+def name_expr(rel, fn_name):
+    """Body of the function that derives the database name of a field from `rename` / the Rust identifier."""
+    src = strip_comments(read(rel))
+    body = _norm(block_after(src, r"fn\s+%s\s*\(\s*&self\s*\)\s*->\s*String" % fn_name, rel))
+    if "rename" not in body:
+        raise ExtractError("%s: `%s` does not look at `rename`" % (rel, fn_name))
+    return body
+
+
+def default_flavor():
+    src = strip_comments(read(LIB))
+    body = block_after(src, r"enum\s+Flavor\b", LIB)
+    m = re.search(r"#\[default\]\s*(\w+)", body)
+    if not m:
+        raise ExtractError("%s: no #[default] variant in enum Flavor" % LIB)
+    names = re.findall(r'"(\w+)"\s*=>\s*Ok\(Self::(\w+)\)', src)
+    if not names:
+        raise ExtractError("%s: flavor names not found" % LIB)
+    return m.group(1), names
+
+
+def flavor_defaulted(rel, struct_name):
+    src = strip_comments(read(rel))
+    body = block_after(src, r"#\[darling\(attributes\(scylla\)\)\]\s*struct\s+%s\b" % re.escape(struct_name), rel)
+    return re.search(r"#\[darling\(default\)\]\s*flavor\s*:\s*Flavor", body) is not None
+
+
 def strs(xs):
     return "[" + ", ".join('"%s"' % x for x in xs) + "]"
 
@@ -237,14 +290,32 @@ def render():
     for nm, rel in (("svRequired", SV), ("dvRequired", DV), ("drRequired", DR)):
         defs.append("/-- `Field::is_required` of %s, translated token by token -/\ndef %s (skip allowMissing : Bool) : Bool := %s\n"
                     % (rel, nm, required_expr(rel)))
+    # how a field is named (raw identifiers) and the default flavor
+    for nm, rel, fn in (("svNameExpr", SV, "field_name"), ("srNameExpr", SR, "column_name"),
+                        ("dvNameExpr", DV, "udt_field_name"), ("drNameExpr", DR, "column_name")):
+        e = name_expr(rel, fn)
+        d(nm, "String", '"%s"' % e.replace('"', '\\"'), "`fn %s` of %s: database name of a field" % (fn, rel))
+        d(nm.replace("Expr", "Unraw"), "Bool", "true" if ".unraw()" in e else "false",
+          "the Rust identifier is `unraw()`ed there (`r#type` names the column `type`)")
+    dflt, names = default_flavor()
+    d("defaultFlavor", "String", '"%s"' % dflt, "`#[default]` variant of `enum Flavor` (%s)" % LIB)
+    d("flavorNames", "List (String × String)", "[" + ", ".join('("%s", "%s")' % p for p in names) + "]",
+      "`flavor = \"…\"` strings and the variants they select")
+    d("flavorAttrDefaulted", "List Bool", "[" + ", ".join("true" if flavor_defaulted(r, n) else "false" for r, n in
+      ((SV, "Attributes"), (SR, "Attributes"), (DV, "StructAttrs"), (DR, "StructAttrs"))) + "]",
+      "`#[darling(default)] flavor: Flavor` in the four struct-attribute structs (sv, sr, dv, dr)")
+    for nm, rel in (("svLines", SV), ("srLines", SR), ("dvLines", DV), ("drLines", DR), ("miLines", MI)):
+        d(nm, "List String", "[\n  " + ",\n  ".join('"%s"' % x for x in watched_lines(rel)) + "]",
+          "every line of %s that mentions an attribute flag, a counter of the generated code or the derivation of a column name" % rel)
     head = [
         "/-",
         "GENERATED by tools/extract_derive_c16.py from the derive-macro sources in /repo - DO NOT EDIT.",
         "A surface extraction (attribute names, is_required, error emissions and the attribute-flag conditions around them,",
-        "in source order), rewritten on every `./check C16`.  `Props/C16.lean` proves set-level facts against `*Emits`, pins",
-        "`*Guarded` / `*Guards` literally (`source_shape_pinned`: any added / dropped / renamed / reordered emission or changed",
-        "flag condition breaks it) and proves the model-side counterpart of every flag-guarded emission.  It does not see",
-        "data flow or flag-free conditions; the behavioural tie is the differential run.",
+        "in source order; name functions, default flavor, every line mentioning a flag / counter / name derivation), rewritten",
+        "on every `./check C16`.  `Props/C16.lean` proves set-level facts against `*Emits`, pins `*Guarded` / `*Guards`",
+        "(brace-headed `if` / `.then(` conditions only) and - in Props/C16Pin.lean - the `*Lines` literally, and proves the",
+        "model-side counterpart of 6 flag-guarded emissions.  The pins demand a re-read of the interpreter when a pinned line",
+        "changes; they see no data flow and prove nothing about behaviour - the behavioural tie is the differential run.",
         "-/",
         "namespace ScyllaVerif.Generated.DeriveC16",
         "",
